@@ -11,14 +11,18 @@
    exists"), patterns with several output nodes (the model has a single root; see the C07 finding). *)
 From Coq Require Import List String ZArith Bool Permutation.
 Require Import OV.Graph.Syntax OV.Graph.Sem OV.Graph.Names OV.Graph.SemProofs.
-Require Import OV.Rewrite.Apply OV.Rewrite.ApplyProofs OV.Rewrite.ApplyExamples.
+Require Import OV.Rewrite.Apply OV.Rewrite.ApplyProofs OV.Rewrite.KeepProofs OV.Rewrite.PassProofs OV.Rewrite.ApplyExamples.
 Import ListNotations.
 
 (* apply_one_sound: one application at any nesting level (path [] = the main graph or a function body, longer
-   paths = If/Loop bodies).  Hypothesis ok_at = at the graph where the match sits: the matched nodes are
-   independent of the later unmatched nodes of the window (non-contiguous matches), the matched segment and
-   (kept matched nodes ++ replacement) are interchangeable up to X (seg_equiv), and X (intermediates of the
-   match, dead names, fresh names) is mentioned neither after the root nor by the graph outputs. *)
+   paths = If/Loop bodies).  Hypothesis ok_at = at the graph where the match sits, site_sound holds, i.e. either
+   (splice, app_sound_at) the matched nodes are independent of the later unmatched nodes of the window
+     (non-contiguous matches), the matched segment and (kept matched nodes ++ replacement) are interchangeable up to
+     X (seg_equiv), and X (intermediates of the match, dead names, fresh names) is mentioned neither after the root
+     nor by the graph outputs; or
+   (keeping rule, keep_sound_at) the executable conditions keep_okb hold (matched nodes re-executable, dead names
+     only on the root, replacement redefines the root's outputs and reads neither them nor the dead names, fresh and
+     dead names unused afterwards) and the replacement is interchangeable with the matched nodes run as a segment. *)
 Theorem C07_apply_one_sound :
   forall V sem truth trip of_nat of_bool limit p a X g g',
     apply_at p a g = Some g' ->
@@ -51,6 +55,26 @@ Theorem C07_apply_one_sound_example_keep :
 Proof. exact (fun V sem truth trip of_nat of_bool limit =>
                 conj ex_apply_keep (ex_sound_hyps_keep V sem truth trip of_nat of_bool limit)). Qed.
 Print Assumptions C07_apply_one_sound_example_keep.
+
+(* keeping rule (remove_nodes=False), no commutation needed: interleaved consumers of the match's intermediates allowed *)
+Theorem C07_apply_keep_sound :
+  forall V sem truth trip of_nat of_bool limit a ns ns' outs X0,
+    apply_nodes a ns = Some ns' ->
+    keep_sound_at V sem truth trip of_nat of_bool limit ns outs a X0 ->
+    forall fuel outer gi gn args,
+      eval_graph V sem truth trip of_nat of_bool limit fuel outer (Graph gi gn ns outs) args
+      = eval_graph V sem truth trip of_nat of_bool limit fuel outer (Graph gi gn ns' outs) args.
+Proof. exact apply_nodes_keep_sound. Qed.
+Print Assumptions C07_apply_keep_sound.
+
+Theorem C07_apply_keep_sound_example :
+  forall V sem truth trip of_nat of_bool limit,
+    apply_nodes ex_app_keep ex_nodes_k2 = Some ex_after_k2 /\
+    movableb (a_mask ex_app_keep) (firstn 3 ex_nodes_k2) = false /\
+    keep_sound_at V sem truth trip of_nat of_bool limit ex_nodes_k2 ["o"%string] ex_app_keep ex_X.
+Proof. exact (fun V sem truth trip of_nat of_bool limit =>
+                conj ex_apply_k2 (conj ex_k2_not_movable (ex_keep_hyps_k2 V sem truth trip of_nat of_bool limit))). Qed.
+Print Assumptions C07_apply_keep_sound_example.
 
 (* the executable side-condition checker (evaluated by the harness on the real matches) implies the
    propositional side conditions; only the equivalence of the replacement remains to be supplied *)
@@ -145,3 +169,38 @@ Theorem C07_first_rule_wins_sound :
     try_sound V sem truth trip of_nat of_bool limit (first_rule rules) outs.
 Proof. exact first_rule_sound. Qed.
 Print Assumptions C07_first_rule_wins_sound.
+
+(* the graph comparison used by the replay checker decides equality (it is not part of the trusted base) *)
+Theorem C07_graph_eqb_decides : forall g h, graph_eqb g h = true -> g = h.
+Proof. exact graph_eqb_eq. Qed.
+Print Assumptions C07_graph_eqb_decides.
+
+(* replay_sound: what the correspondence check computes on the real data (check_host = (0, _, 0): the logged
+   applications reproduce the final graph, every one inside the executable side conditions) together with the
+   interchangeability of each replacement with its match gives: the graph the implementation ended with evaluates
+   like the graph it started from *)
+Theorem C07_replay_sound :
+  forall V sem truth trip of_nat of_bool limit l i g final k,
+    check_host_from i 0 l g final = (0, k, 0) ->
+    equiv_hyps V sem truth trip of_nat of_bool limit l g ->
+    forall fuel outer args,
+      eval_graph V sem truth trip of_nat of_bool limit fuel outer g args
+      = eval_graph V sem truth trip of_nat of_bool limit fuel outer final args.
+Proof. exact replay_sound. Qed.
+Print Assumptions C07_replay_sound.
+
+Theorem C07_replay_sound_example :
+  forall V sem truth trip of_nat of_bool limit,
+    check_host [(ex_path, ex_app, ["a"%string])] ex_host ex_host_after = (0, 1, 0) /\
+    equiv_hyps V sem truth trip of_nat of_bool limit [(ex_path, ex_app, ["a"%string])] ex_host.
+Proof. exact (fun V sem truth trip of_nat of_bool limit =>
+                conj ex_check (ex_equiv_hyps V sem truth trip of_nat of_bool limit)). Qed.
+Print Assumptions C07_replay_sound_example.
+
+Theorem C07_replay_sound_example_keep :
+  forall V sem truth trip of_nat of_bool limit,
+    check_host [([], ex_app_keep, ["a"%string])] ex_host_k2 ex_host_k2_after = (0, 1, 0) /\
+    equiv_hyps V sem truth trip of_nat of_bool limit [([], ex_app_keep, ["a"%string])] ex_host_k2.
+Proof. exact (fun V sem truth trip of_nat of_bool limit =>
+                conj ex_check_k2 (ex_equiv_hyps_k2 V sem truth trip of_nat of_bool limit)). Qed.
+Print Assumptions C07_replay_sound_example_keep.
